@@ -305,7 +305,7 @@ def run_instance(d):
     def _alarm(signum, frame):
         raise TimeoutError("instance exceeded its wall-clock budget of %ds" % limit)
 
-    limit = int(d.get("time_limit") or os.environ.get("VERIF_INSTANCE_LIMIT", "900"))
+    limit = int(d.get("time_limit") or os.environ.get("VERIF_INSTANCE_LIMIT", "1500"))
     try:
         signal.signal(signal.SIGALRM, _alarm)
         signal.alarm(limit)
@@ -484,7 +484,7 @@ def _run_parallel(dicts, jobs):
 
     ctxm = mp.get_context("spawn")
     pending, running, results = list(dicts), [], []
-    default = int(os.environ.get("VERIF_INSTANCE_LIMIT", "900"))
+    default = int(os.environ.get("VERIF_INSTANCE_LIMIT", "1500"))
     while pending or running:
         while pending and len(running) < jobs:
             d = pending.pop(0)
